@@ -21,6 +21,7 @@ import (
 	"bufio"
 	"encoding/json"
 	"fmt"
+	"hash/fnv"
 	"math/bits"
 	"os"
 	"path/filepath"
@@ -46,6 +47,7 @@ type verdict struct {
 	Ops        int    `json:"ops"`
 	Partitions int    `json:"partitions"`
 	Overlaps   int    `json:"overlapping_pairs"`
+	Interleave string `json:"interleaving"` // fingerprint of the observed interleaving: per partition, the order of (client, op) by call time and which ops overlapped
 	Result     string `json:"result"` // ok | illegal | unknown
 	BadPart    string `json:"bad_partition,omitempty"`
 	Witness    []rec  `json:"witness,omitempty"`
@@ -155,6 +157,29 @@ func main() {
 					}
 				}
 			}
+		}
+		{
+			// interleaving fingerprint: per partition (sorted), the call-ordered sequence of client:op with an
+			// overlap marker; two histories with the same fingerprint exercised the same client-visible schedule
+			var pk []string
+			for p := range parts {
+				pk = append(pk, p)
+			}
+			sort.Strings(pk)
+			h := fnv.New64a()
+			for _, p := range pk {
+				rs := append([]rec(nil), parts[p]...)
+				sort.Slice(rs, func(i, j int) bool { return rs[i].Call < rs[j].Call })
+				fmt.Fprintf(h, "|%s:", p)
+				for i, r := range rs {
+					ov := 0
+					if i > 0 && rs[i-1].Ret > r.Call {
+						ov = 1
+					}
+					fmt.Fprintf(h, "%d%s%d,", r.C, r.Op, ov)
+				}
+			}
+			v.Interleave = fmt.Sprintf("%016x", h.Sum64())
 		}
 		res := porcupine.CheckOperationsTimeout(model, ops, timeout)
 		switch res {
